@@ -1296,7 +1296,24 @@ Proof.
     rewrite starts_with_app. reflexivity.
 Qed.
 
-(* the sheet type is read off the folder, whatever the file is called *)
+(* the sheet type is the one the relationship Type names — eight types, four kinds — whatever the
+   part is called (folder and file name are free) *)
+Theorem sheet_type_of_relationship :
+  sheet_type_of_rel t_ws = Some 0 /\ sheet_type_of_rel t_ws_strict = Some 0 /\
+  sheet_type_of_rel t_cs = Some 1 /\ sheet_type_of_rel t_cs_strict = Some 1 /\
+  sheet_type_of_rel t_ds = Some 2 /\ sheet_type_of_rel t_ds_strict = Some 2 /\
+  sheet_type_of_rel t_xlm = Some 3 /\ sheet_type_of_rel t_xlim = Some 3 /\
+  (forall t, existsb (str_eqb t) sheet_rel_types = true -> exists k, sheet_type_of_rel t = Some k) /\
+  (forall k path, sheet_type (Some k) path = Some k).
+Proof.
+  repeat (split; [reflexivity|]). split; [|reflexivity].
+  intros t H. unfold sheet_rel_types in H. cbn [existsb] in H.
+  repeat (apply orb_true_iff in H; destruct H as [H|H]); try discriminate;
+    apply str_eqb_eq in H; subst t; eexists; reflexivity.
+Qed.
+
+(* only when the Type names no sheet kind (absent, unknown) does the reader fall back to the
+   folder of the part, whatever the file is called *)
 Theorem sheet_type_of_folder : forall rest,
   sheet_type_of (p_xl ++ p_worksheets ++ SLASH :: rest) = Some 0 /\
   sheet_type_of (p_xl ++ p_chartsheets ++ SLASH :: rest) = Some 1 /\
@@ -1505,10 +1522,10 @@ Proof.
   - apply IH. cbn in H. apply andb_true_iff in H. tauto.
 Qed.
 
-Lemma find_fst_nodup : forall (l : list (str * str)) k v, NoDup (map fst l) -> In (k, v) l ->
+Lemma find_fst_nodup : forall (A : Type) (l : list (str * A)) k v, NoDup (map fst l) -> In (k, v) l ->
   find (fun p => str_eqb (fst p) k) l = Some (k, v).
 Proof.
-  induction l as [|[k' v'] l IH]; intros k v Hn Hin; [contradiction|].
+  intros A. induction l as [|[k' v'] l IH]; intros k v Hn Hin; [contradiction|].
   cbn [map fst] in Hn. inversion Hn as [|? ? Hni Hn']; subst. cbn [find fst].
   destruct Hin as [Hin|Hin].
   - inversion Hin; subst. rewrite str_eqb_refl. reflexivity.
@@ -1518,11 +1535,13 @@ Proof.
 Qed.
 
 (* --- read_relationships on the encoded part --- *)
-Definition rel_pair (s : esheetref) : str * str := (sr_rid s, spell (sr_spelling s) (sr_part s)).
+Definition rel_pair (s : esheetref) : str * (str * option N) :=
+  (sr_rid s, (spell (sr_spelling s) (sr_part s), sheet_type_of_rel (sr_type s))).
 
 Lemma rels_read : forall pfx sheets acc rest, no_colon pfx = true ->
   read_relationships acc
-    (flat_map (fun s => elem pfx n_Relationship [(a_Id, sr_rid s); (a_Target, spell (sr_spelling s) (sr_part s))] [])
+    (flat_map (fun s => elem pfx n_Relationship [(a_Id, sr_rid s); (a_Type, sr_type s);
+                                                 (a_Target, spell (sr_spelling s) (sr_part s))] [])
               sheets ++ End (qn pfx n_Relationships) :: rest) =
   Ok (rev (map rel_pair sheets) ++ acc).
 Proof.
@@ -1532,8 +1551,7 @@ Proof.
     change (str_eqb n_Relationship n_Relationship) with true.
     change (str_eqb n_Relationship n_Relationships) with false. cbn iota.
     rewrite IH by exact Hp. cbn [map rev]. rewrite <- app_assoc.
-    cbn [rel_attrs]. change (str_eqb a_Id a_Id) with true. change (str_eqb a_Target a_Id) with false.
-    change (str_eqb a_Target a_Target) with true. cbn iota. reflexivity.
+    reflexivity.
 Qed.
 
 Lemma rels_events_read : forall wb, no_colon (wb_relspfx wb) = true ->
@@ -1545,10 +1563,12 @@ Proof.
 Qed.
 
 Lemma rel_get_sheet : forall sheets s, str_distinct (map sr_rid sheets) = true -> In s sheets ->
-  rel_get (rev (map rel_pair sheets)) (sr_rid s) = Some (spell (sr_spelling s) (sr_part s)).
+  rel_get (rev (map rel_pair sheets)) (sr_rid s) =
+  Some (spell (sr_spelling s) (sr_part s), sheet_type_of_rel (sr_type s)).
 Proof.
   intros sheets s Hd Hin. unfold rel_get.
-  rewrite (@find_fst_nodup _ (sr_rid s) (spell (sr_spelling s) (sr_part s))); [reflexivity| |].
+  rewrite (@find_fst_nodup _ _ (sr_rid s) (spell (sr_spelling s) (sr_part s), sheet_type_of_rel (sr_type s)));
+    [reflexivity| |].
   - rewrite map_rev, map_map. cbn [rel_pair fst]. apply NoDup_rev. apply str_distinct_nodup. exact Hd.
   - apply -> in_rev. apply in_map_iff. exists s. split; [reflexivity|exact Hin].
 Qed.
@@ -1561,30 +1581,24 @@ Proof.
   apply N.eqb_eq in H1. subst y. destruct (IH _ H2) as [r E]. exists r. rewrite E. reflexivity.
 Qed.
 
-Lemma part_ok_path : forall part sp, part_ok part = true ->
-  normalize_target (spell sp part) = p_xl ++ part /\ exists k, sheet_type_of (p_xl ++ part) = Some k.
+(* any part name: the Target in any of the three spellings resolves to xl/ ++ part *)
+Lemma part_ok_path : forall part sp, part_ok sp part = true ->
+  normalize_target (spell sp part) = p_xl ++ part.
 Proof.
-  intros part sp H. unfold part_ok, folder_names in H. cbn [existsb] in H.
-  destruct (sheet_type_of_folder) as [_ _] || idtac.
-  assert (D : exists f rest, In f folder_names /\ part = f ++ SLASH :: rest).
-  { repeat (apply orb_true_iff in H; destruct H as [H|H]); try discriminate;
-      apply starts_with_split in H; destruct H as [r E]; rewrite <- app_assoc in E; cbn [app] in E;
-      eexists; exists r; (split; [|exact E]); cbn; auto. }
-  destruct D as [f [rest [Hf E]]]. subst part.
-  destruct (sheet_type_of_folder rest) as [T0 [T1 [T2 T3]]].
-  cbn in Hf. destruct Hf as [Hf|[Hf|[Hf|[Hf|[]]]]]; subst f; (split; [apply target_normal_form; reflexivity|]).
-  - exists 0. exact T0.
-  - exists 1. exact T1.
-  - exists 2. exact T2.
-  - exists 3. exact T3.
+  intros part sp H. unfold normalize_target, spell. destruct sp.
+  - cbn [part_ok] in H. apply andb_true_iff in H. destruct H as [H1 H2].
+    apply negb_true_iff in H1, H2. rewrite H2, H1. reflexivity.
+  - rewrite starts_with_app. reflexivity.
+  - change (starts_with p_slash_xl (p_xl ++ part)) with false. cbn iota.
+    rewrite starts_with_app. reflexivity.
 Qed.
 
 (* --- the attribute loop of <sheet> --- *)
-Lemma sheet_attrs_extra : forall rels extra rest name path,
+Lemma sheet_attrs_extra : forall rels extra rest name path rt,
   forallb sheet_attr_ok extra = true ->
-  sheet_attrs rels (extra ++ rest) name path = sheet_attrs rels rest name path.
+  sheet_attrs rels (extra ++ rest) name path rt = sheet_attrs rels rest name path rt.
 Proof.
-  induction extra as [|[k v] extra IH]; intros rest name path H; [reflexivity|].
+  induction extra as [|[k v] extra IH]; intros rest name path rt H; [reflexivity|].
   cbn [forallb] in H. apply andb_true_iff in H. destruct H as [H1 H2].
   unfold sheet_attr_ok in H1. cbn [fst snd] in H1.
   apply andb_true_iff in H1. destruct H1 as [H1 Hst]. apply andb_true_iff in H1. destruct H1 as [Hn Hr].
@@ -1599,9 +1613,9 @@ Definition name_path (s : esheetref) : str * str := (sr_name s, p_xl ++ sr_part 
 Lemma sheet_elem_read : forall wb sheets0 s,
   legal_workbook wb = true -> known_C01_wb wb = None -> In s (wb_sheets wb) ->
   sheets0 = wb_sheets wb ->
-  sheet_attrs (rev (map rel_pair sheets0))
-    ((a_name, sr_name s) :: sr_extra s ++ [(qn (wb_relpfx wb) a_id, sr_rid s)]) [] [] =
-  Ok (name_path s) /\ exists k, sheet_type_of (p_xl ++ sr_part s) = Some k.
+  exists k, sheet_attrs (rev (map rel_pair sheets0))
+    ((a_name, sr_name s) :: sr_extra s ++ [(qn (wb_relpfx wb) a_id, sr_rid s)]) [] [] None =
+  Ok (name_path s, Some k).
 Proof.
   intros wb sheets0 s Hl Hk Hin E0. subst sheets0. unfold legal_workbook in Hl.
   apply andb_true_iff in Hl. destruct Hl as [Hl Hrid].
@@ -1612,22 +1626,25 @@ Proof.
   apply andb_true_iff in Hl. destruct Hl as [Hpfx Hrels].
   rewrite forallb_forall in Hsheets. specialize (Hsheets _ Hin).
   apply andb_true_iff in Hsheets. destruct Hsheets as [Hpart Hextra].
+  apply andb_true_iff in Hpart. destruct Hpart as [Hpart Htype].
   assert (NE : wb_relpfx wb <> []) by (destruct (wb_relpfx wb); [discriminate|discriminate]).
-  destruct (@part_ok_path (sr_part s) (sr_spelling s) Hpart) as [NT TY].
-  split; [|exact TY].
+  pose proof (@part_ok_path (sr_part s) (sr_spelling s) Hpart) as NT.
+  destruct sheet_type_of_relationship as [_ [_ [_ [_ [_ [_ [_ [_ [TY _]]]]]]]]].
+  destruct (TY _ Htype) as [k Ek]. exists k.
   cbn [sheet_attrs]. change (str_eqb a_name a_name) with true. cbn iota.
   rewrite sheet_attrs_extra by exact Hextra. cbn [sheet_attrs].
   rewrite qn_prefixed_neq by (first [exact NE | reflexivity]).
   rewrite qn_prefixed_neq by (first [exact NE | reflexivity]).
   unfold sheet_rid_attr. rewrite (@rid_attr_ok rid_fix_applied wb Hk Hrel NE).
-  rewrite rel_get_sheet by assumption. rewrite NT. reflexivity.
+  rewrite rel_get_sheet by assumption. rewrite NT, Ek. reflexivity.
 Qed.
 
 Lemma wb_sheets_read : forall wb rels f sheets racc rest,
   no_colon (wb_pfx wb) = true ->
   (forall s, In s sheets ->
-     sheet_attrs rels ((a_name, sr_name s) :: sr_extra s ++ [(qn (wb_relpfx wb) a_id, sr_rid s)]) [] [] =
-     Ok (name_path s) /\ exists k, sheet_type_of (p_xl ++ sr_part s) = Some k) ->
+     exists k,
+     sheet_attrs rels ((a_name, sr_name s) :: sr_extra s ++ [(qn (wb_relpfx wb) a_id, sr_rid s)]) [] [] None =
+     Ok (name_path s, Some k)) ->
   read_workbook rels None f racc
     (flat_map (fun s => elem (wb_pfx wb) n_sheet
                  ((a_name, sr_name s) :: sr_extra s ++ [(qn (wb_relpfx wb) a_id, sr_rid s)]) [])
@@ -1637,8 +1654,8 @@ Proof.
   induction sheets as [|s sheets IH]; intros racc rest Hp H; [reflexivity|].
   cbn [flat_map]. unfold elem at 1. cbn [app read_workbook]. loc.
   change (str_eqb n_sheet n_sheet) with true. cbn iota.
-  destruct (H s (or_introl eq_refl)) as [HA [k HT]]. rewrite HA. unfold name_path at 1.
-  rewrite HT. change (str_eqb n_sheet n_workbook) with false. cbn iota.
+  destruct (H s (or_introl eq_refl)) as [k HA]. rewrite HA. unfold name_path at 1.
+  cbn [sheet_type]. change (str_eqb n_sheet n_workbook) with false. cbn iota.
   rewrite IH; [|exact Hp|intros s' Hs'; apply H; right; exact Hs'].
   cbn [map rev]. rewrite <- app_assoc. reflexivity.
 Qed.
@@ -1839,11 +1856,11 @@ Definition wit_sheet : esheet :=
 (* class 2 (F30): the same workbook opens with r:id and fails with rel:id *)
 Definition wit_wb (relpfx : str) : eworkbook :=
   mkWorkbook [] relpfx []
-    [mkSheetRef (ascii "First") (ascii "rId1") (ascii "worksheets/sheet1.xml") SpRelative [(a_sheetId, ascii "1")]
+    [mkSheetRef (ascii "First") (ascii "rId1") (ascii "worksheets/sheet1.xml") t_ws SpRelative [(a_sheetId, ascii "1")]
                 (SWork wit_sheet);
-     mkSheetRef (ascii "Second") (ascii "rId2") (ascii "chartsheets/sheet2.xml") SpAbsolute
+     mkSheetRef (ascii "Second") (ascii "rId2") (ascii "chartsheets/sheet2.xml") t_cs SpAbsolute
                 [(a_state, v_hidden)] (SOther [Start (ascii "chartsheet") []; End (ascii "chartsheet")]);
-     mkSheetRef (ascii "Third") (ascii "rId3") (ascii "worksheets/sheet3.xml") SpXl [] (SWork wit_sheet)]
+     mkSheetRef (ascii "Third") (ascii "rId3") (ascii "worksheets/sheet3.xml") t_ws SpXl [] (SWork wit_sheet)]
     (Some (ascii "1")).
 Definition wit_package (wb : eworkbook) : package :=
   [(ascii "XL/_rels/Workbook.xml.RELS", rels_events wb); (ascii "xl/WORKBOOK.xml", workbook_events wb)].
@@ -1879,23 +1896,25 @@ Proof.
   eexists. split; [vm_compute; reflexivity|]. vm_compute. repeat split.
 Qed.
 
-(* a complete package for the three-sheet workbook: re-cased part names, shuffled order, extras *)
+(* a complete package for the three-sheet workbook: re-cased part names, shuffled order, extras;
+   no sheet part is where convention would put it: a worksheet directly under xl/, the chart sheet
+   under xl/ws/, a (strict-typed) worksheet under xl/chartsheets/ *)
 Definition wit_chart : list event := [Start (ascii "chartsheet") []; End (ascii "chartsheet")].
 Definition wit_package_full (wb : eworkbook) : package :=
   [(ascii "docProps/app.xml", []);
-   (ascii "xl/worksheets/sheet3.XML", encode wit_sheet);
+   (ascii "xl/chartsheets/sheet3.XML", encode wit_sheet);
    (ascii "XL/_rels/Workbook.xml.RELS", rels_events wb);
-   (ascii "XL/Chartsheets/Sheet2.xml", wit_chart);
+   (ascii "XL/Ws/A.xml", wit_chart);
    (ascii "xl/WORKBOOK.xml", workbook_events wb);
    (ascii "xl/sharedStrings.xml", [Other]);
-   (ascii "Xl/Worksheets/SHEET1.xml", encode wit_sheet)].
+   (ascii "Xl/SHEET1.xml", encode wit_sheet)].
 Definition wit_wb_r : eworkbook :=
   mkWorkbook (ascii "x") (ascii "r") []
-    [mkSheetRef (ascii "First") (ascii "rId1") (ascii "worksheets/sheet1.xml") SpRelative [(a_sheetId, ascii "1")]
+    [mkSheetRef (ascii "First") (ascii "rId1") (ascii "sheet1.xml") t_ws SpRelative [(a_sheetId, ascii "1")]
                 (SWork wit_sheet);
-     mkSheetRef (ascii "Second") (ascii "rId2") (ascii "chartsheets/sheet2.xml") SpAbsolute
+     mkSheetRef (ascii "Second") (ascii "rId2") (ascii "ws/a.xml") t_cs SpAbsolute
                 [(a_state, v_hidden)] (SOther wit_chart);
-     mkSheetRef (ascii "Third") (ascii "rId3") (ascii "worksheets/sheet3.xml") SpXl [] (SWork wit_sheet)]
+     mkSheetRef (ascii "Third") (ascii "rId3") (ascii "chartsheets/sheet3.xml") t_ws_strict SpXl [] (SWork wit_sheet)]
     (Some (ascii "1")).
 
 Example wit_workbook_legal :
@@ -1907,9 +1926,9 @@ Proof.
   - exists (ascii "XL/_rels/Workbook.xml.RELS"). split; [cbn; auto|vm_compute; reflexivity].
   - exists (ascii "xl/WORKBOOK.xml"). split; [cbn; auto 6|vm_compute; reflexivity].
   - intros s Hs. cbn [wit_wb_r wb_sheets] in Hs. destruct Hs as [E|[E|[E|[]]]]; subst s; cbn [sr_content sr_part content_events].
-    + exists (ascii "Xl/Worksheets/SHEET1.xml"). split; [cbn; auto 10|]. split; vm_compute; reflexivity.
-    + exists (ascii "XL/Chartsheets/Sheet2.xml"). split; [cbn; auto 10|]. split; vm_compute; reflexivity.
-    + exists (ascii "xl/worksheets/sheet3.XML"). split; [cbn; auto 10|]. split; vm_compute; reflexivity.
+    + exists (ascii "Xl/SHEET1.xml"). split; [cbn; auto 10|]. split; vm_compute; reflexivity.
+    + exists (ascii "XL/Ws/A.xml"). split; [cbn; auto 10|]. split; vm_compute; reflexivity.
+    + exists (ascii "xl/chartsheets/sheet3.XML"). split; [cbn; auto 10|]. split; vm_compute; reflexivity.
 Qed.
 End Wit.
 Export Wit.
